@@ -298,6 +298,12 @@ class LegInterp:
             return Scalar('str')
         if isinstance(e, ast.Compare):
             return Scalar('bool')
+        if isinstance(e, ast.IfExp):
+            a, b = self.ev(e.body), self.ev(e.orelse)
+            if isinstance(a, (Scalar, Opaque)) and isinstance(b, (Scalar, Opaque)):
+                return Scalar(norm(e))          # a choice between two numbers is a number
+        if isinstance(e, ast.BoolOp):
+            return Scalar('bool')
         raise LegError(f'{self.fi.qual}: expression `{norm(e)[:60]}` not in the leg domain')
 
     def dim_product(self, v, node):
